@@ -592,7 +592,7 @@ pub fn worker_main<S: Scenario>(args: &[String]) -> i32 {
                     }
                     if let Some(n) = out.obs.nontrivial {
                         if nontrivial.insert(n) && done.samples.len() < 3 && widx == 0 {
-                            done.samples.push(json!({"run": k, "hash_seed": env.hash_seed, "case": serde_json::to_value(&env.case).unwrap()}));
+                            done.samples.push(json!({"run": k, "hash_seed": env.hash_seed, "case": shorten(serde_json::to_value(&env.case).unwrap())}));
                         }
                     }
                     if let Some(v) = out.violation {
@@ -626,6 +626,22 @@ pub fn worker_main<S: Scenario>(args: &[String]) -> i32 {
     let _ = writeln!(o, "{}", json!({"type":"done","d":done}));
     let _ = o.flush();
     0
+}
+
+/// Evidence samples are for reading: long strings are cut (the run index and seed regenerate the case).
+fn shorten(v: Value) -> Value {
+    match v {
+        Value::String(s) if s.len() > 400 => {
+            let mut cut = 400;
+            while !s.is_char_boundary(cut) {
+                cut -= 1;
+            }
+            Value::String(format!("{}[... {} bytes in all]", &s[..cut], s.len()))
+        }
+        Value::Array(a) => Value::Array(a.into_iter().take(40).map(shorten).collect()),
+        Value::Object(o) => Value::Object(o.into_iter().map(|(k, v)| (k, shorten(v))).collect()),
+        other => other,
+    }
 }
 
 fn write_set(path: &str, s: &HashSet<u64>) {
